@@ -98,8 +98,8 @@ def run_case(case: dict) -> Result:
             a = OPS.resolve(root, op)
         except OPS.NotApplicable:
             continue
-        if not a.syntax_ok:
-            res.excluded_known += 0
+        if not a.syntax_ok or (a.family == 'claim' and str(a.prop).startswith('unclaim')):
+            # unclaiming leaves unowned comments in the store; what later insertions do around them is outside the statement
             classes.add('skipped-not-syntax-preserving')
             continue
         neighbours = False
